@@ -32,7 +32,11 @@ try:
     res["checks"] = {}
     for p in [pid] + extra:
         t0 = time.time()
+        ev = "/verif/evidence/%s.json" % p      # the evidence file describes runs on the unchanged tree: keep it
+        saved = open(ev).read() if os.path.exists(ev) else None
         rc, out = sh("python3 run.py %s quick" % p, cwd="/verif")
+        if saved is not None:
+            open(ev, "w").write(saved)
         lines = [l for l in out.split("\n") if l.startswith("VIOLATION") or l.startswith("BROKEN") or l.startswith("   config=") or l.startswith("   program=")]
         res["checks"][p] = {"exit": rc, "wall_s": round(time.time() - t0, 1), "summary": out.strip().split("\n")[-1], "first_lines": lines[:6]}
 finally:
